@@ -13,7 +13,7 @@ UNITS = {
     'codec_mut': dict(module='units.codec_mut', rlimit=150, timeout=300),
     'codec_imm': dict(module='units.codec_imm', rlimit=150, timeout=300),
     'ser': dict(module='units.ser', rlimit=150, timeout=600),
-    'event': dict(module='units.event', rlimit=200, timeout=900),
+    'event': dict(module='units.event', rlimit=200, timeout=900, expand=False),
     'reader': dict(module='units.reader', rlimit=200, timeout=900),
     'startend': dict(module='units.startend', rlimit=150, timeout=600),
     'hash': dict(module='units.hash', rlimit=50, timeout=300),
@@ -22,21 +22,24 @@ UNITS = {
 
 PROPS = {
     'C03': dict(
-        units=[('codec_mut', r'(with_capacity|read_push|Version\.|impl Version)'), ('event', r'(parse_event__(pre|post|start|item|end)|C03)')],
+        units=[('codec_mut', r'(with_capacity|read_push|push_null|Version\.|impl Version)'), ('event', r'(parse_event__(pre|post|start|item|end)|C03)')],
         kani=[],
     ),
     'C01': dict(
         units=[('ser', r'(write|payload_sizes|gecko_codes|game_start|game_end|PayloadSizes|frame_counts|C01|Frame::len)'),
                ('codec_imm', r'(write|size|from|emit|encode_decode|lemma_)'),
-               ('codec_mut', r'(read_push|with_capacity|push_null)')],
+               ('codec_mut', r'(read_push|with_capacity|push_null)'),
+               ('event', r'(C04\.|C03\.|C12\.|parse_event__(pre|post|start|item|end|other|splitter)|frame_close$|frame_open)'),
+               ('reader', r'(^read$|^parse_start|C12\.)')],
         kani=[],
     ),
     'C17': dict(
-        units=[('ser', r'(raw_size|frame_counts|gecko_codes_size|payload_sizes|PayloadSizes|lemma_|C17|Frame::write|::write$|Frame::len)')],
+        units=[('ser', r'(raw_size|frame_counts|gecko_codes_size|payload_sizes|PayloadSizes|lemma_|C17|Frame::write|::write$|Frame::len|C01\.payload_table|C01\.file_layout|C01\.frames_canonical_order|C01\.gecko_blocks)')],
         kani=[],
     ),
     'C04': dict(
-        units=[('event', r'(parse_event|frame_close|frame_open|last_id|with_capacity|push_null|Data::len|PortData::len|Frame::len|lemma_|C04)')],
+        units=[('event', r'(parse_event|frame_close|frame_open|last_id|with_capacity|push_null|Data::len|PortData::len|Frame::len|lemma_|C04)'),
+               ('codec_mut', r'(push_null|with_capacity)')],
         kani=[],
     ),
     'C06': dict(
